@@ -805,7 +805,8 @@ fn enabled_c16(w: &RouterWorld, cfg: &Cfg, v: &mut Vec<(Act, u8)>) {
     let wills: &[u8] = match cfg.variant {
         0 => &[1, 2, 3],
         1 => &[4, 5, 6],
-        _ => &[1, 4],
+        // (8: a retained will on the second topic, matched by the wildcard subscription only)
+        _ => &[1, 4, 8],
     };
     for c in [0u8, 1u8] {
         if live(w, c) {
@@ -825,6 +826,10 @@ fn enabled_c16(w: &RouterWorld, cfg: &Cfg, v: &mut Vec<(Act, u8)>) {
             if c == 0 {
                 for &k in wills {
                     v.push((Act::Connect { c, clean: true, will: k }, 0));
+                }
+                if cfg.variant == 2 {
+                    // a will owner with a persistent session
+                    v.push((Act::Connect { c, clean: false, will: 1 }, 0));
                 }
                 if w.model.clients[0].ever_connected {
                     // the same client id again, this time without a will
